@@ -325,13 +325,101 @@ def rule_M8(ctx: Ctx) -> None:
                   "the cell the recorded visited_cells are reachable from")
 
 
+def _meta_job(index, job):
+    "one (generator, grid, kwargs) case of M10: every outcome's metadata against the maze it belongs to"
+    from sa import absmaze as AM
+    from sa.absnp import Arr
+    from sa.rules.c01 import _generator_outcomes, _graph_of
+
+    name, shape, kwargs = job
+    done, raised, pruned, unk = _generator_outcomes(index, name, shape, kwargs, None, max_runs=4000)
+    n_cells = shape[0] * shape[1]
+    bad = []
+    for cl, meta in done:
+        g = _graph_of(cl, shape)
+        if g is None or not isinstance(meta, dict):
+            bad.append({"found": "no connection list / metadata"})
+            continue
+        inside, leaving, odd = g
+        why = []
+        sc = meta.get("start_coord")
+        start = tuple(sc.data) if isinstance(sc, Arr) else (tuple(sc) if sc is not None else None)
+        vis = meta.get("visited_cells")
+        vis_set = None if vis is None else {tuple(v.data) if isinstance(v, Arr) else tuple(v) for v in (vis.data if isinstance(vis, Arr) else vis)}
+        fc = bool(meta.get("fully_connected", False))
+        reach_all = len(AM.bfs(inside, (0, 0))) == n_cells
+        if fc and not reach_all:
+            why.append("flagged fully_connected although some cell is unreachable")
+        if name == "gen_dfs" and fc != reach_all:
+            why.append(f"gen_dfs sets the flag exactly when every cell is reachable: flag {fc}, reachable {reach_all}")
+        if not fc and vis_set is None:
+            why.append("not flagged fully connected and no visited_cells recorded")
+        if vis_set is not None and start is not None:
+            comp = set(AM.bfs(inside, start))
+            if vis_set != comp:
+                why.append(f"visited_cells {sorted(vis_set)[:6]} != cells reachable from the recorded start {start}: {sorted(comp)[:6]}")
+        if name == "gen_dfs" and vis_set is not None:
+            k = kwargs.get("accessible_cells")
+            want = n_cells if k is None else (int(k * n_cells) if isinstance(k, float) else k)
+            if len(vis_set) > max(want, 1):
+                why.append(f"{len(vis_set)} cells visited, {want} requested")
+            if "max_tree_depth" not in kwargs and kwargs.get("do_forks", True) and len(vis_set) != min(max(want, 1), n_cells):
+                why.append(f"{len(vis_set)} cells visited, exactly {min(max(want, 1), n_cells)} expected without depth / fork limits")
+            if len(inside) != len(vis_set) - 1:
+                why.append(f"{len(inside)} connections over {len(vis_set)} visited cells: not a tree")
+            if meta.get("n_accessible_cells") != want:
+                why.append(f"recorded n_accessible_cells {meta.get('n_accessible_cells')} != requested {want}")
+        if why:
+            bad.append({"connections": sorted(inside)[:8], "start": start, "why": why})
+    for r_ in raised:
+        bad.append({"found": f"raises {r_}"})
+    return {"case": [name, list(shape), dict(kwargs)], "complete": len(done), "deviations": bad[:2], "undecided": unk}
+
+
+def rule_M10(ctx: Ctx) -> None:
+    """bounded semantic check of the metadata (E15, nondeterministic): every generator is interpreted on small grids under every sequence of its
+    random draws, and the metadata of each outcome is compared with the maze it is attached to: visited_cells = cells reachable from the recorded
+    start, fully_connected only when everything is reachable (gen_dfs: exactly then), a record of visited cells whenever not flagged, the
+    accessible-cell budget honoured exactly"""
+    from sa import absmaze as AM
+
+    jobs = []
+    for g in [(2, 2), (2, 3), (3, 2)]:
+        for k in (None, 1, 2, 3, 5, 0.5, 0.4):
+            jobs.append(("gen_dfs", g, {} if k is None else {"accessible_cells": k}))
+        jobs.append(("gen_dfs", g, {"accessible_cells": 4, "do_forks": False}))
+        jobs.append(("gen_dfs_percolation", g, {"p": 0.0, "accessible_cells": 2}))
+        jobs.append(("gen_dfs_percolation", g, {"p": 1.0, "accessible_cells": 2}))
+    jobs.append(("gen_percolation", (2, 2), {"p": 0.5}))
+    jobs.append(("gen_dfs_percolation", (2, 2), {"p": 0.5, "accessible_cells": 2}))
+    jobs.append(("gen_wilson", (2, 2), {}))
+    have = set(ctx.index.cls(NS).methods)
+    jobs = [j for j in jobs if j[0] in have]
+
+    res = AM.parallel_map(lambda j: _meta_job(ctx.index, j), [j for j in jobs if j[0] != "gen_wilson"], min_parallel=8)
+    bad = [{**d, "case": r["case"]} for r in res for d in r["deviations"]]
+    unk = [f"{r['case']}: {r['undecided']}" for r in res if r["undecided"]]
+    empty = [r["case"] for r in res if not r["complete"] and not r["undecided"] and not r["deviations"]]
+    c = ctx.index.cls(NS)
+    ctx.judge(c, False if bad else None if (unk or empty) else True,
+              {"cases": len(res), "complete_outcomes": sum(r["complete"] for r in res), "deviations": bad[:3], "undecided": unk[:2], "cases_without_a_complete_outcome": empty[:2]},
+              "for every outcome of the random draws the metadata describes the maze it is attached to (visited cells, fully_connected flag, accessible-cell budget, tree over the visited cells)",
+              "a generated maze's metadata lies: endpoints drawn from it may be unreachable from each other")
+    if not bad and not unk and not empty:
+        ctx.cover([f"{NS}.gen_dfs", f"{NS}.gen_percolation", f"{NS}.gen_dfs_percolation"], by="C12.M10", supersedes=["C12.M1", "C12.M2", "C12.M4", "C12.M5", "C12.M6", "C12.M7"],
+                  whole_rules=["C12.M6"], bound=f"{len(res)} generator cases, {sum(r['complete'] for r in res)} complete outcomes over all draw sequences")
+
+
 RULES = [
+    Rule("C12.M10", rule_M10, floor=1, doc="bounded semantic check: metadata of every outcome of every generator's draws on small grids describes its maze"),
     Rule("C12.M1", rule_M1, floor=1, doc="fully_connected against the total"),
     Rule("C12.M2", rule_M2, floor=3, doc="recorded set is the loop's set"),
     Rule("C12.M3", rule_M3, floor=2, doc="Wilson's literal True is justified"),
     Rule("C12.M4", rule_M4, floor=2, doc="component recomputed last"),
     Rule("C12.M5", rule_M5, floor=6, doc="metadata key agreement"),
     Rule("C12.M6", rule_M6, floor=2, doc="accessible-cell bound"),
+    Rule("C12.M9", lambda ctx: __import__("sa.rules.c01", fromlist=["x"]).rule_B7(ctx), floor=7,
+         doc="fully_connected is judged against the total number of cells: how that total and the default bounds are computed (C01.B7 re-judged)"),
     Rule("C12.M8", rule_M8, floor=2, doc="the recorded start cell is a fresh object on every path of _random_start_coord"),
     Rule("C12.M7", rule_M7, floor=3, doc="DFS-stage metadata stays true under percolation (union of edges, forwarded arguments)"),
 ]
